@@ -168,10 +168,19 @@ def stream_for(T, rnd, extras=True, depth=0, nulls=0.0):
                     members.append((f["name"].lower().encode() + b"_", any_value(rnd, depth + 1)))
                 continue
             if "inline" in f["opts"] or "squash" in f["opts"]:
-                if f["t"]["k"] == "struct":
-                    for g in f["t"]["f"]:
-                        if not skipped(g) and rnd.random() < 0.7:
+                def flat(t):
+                    # members of an inlined struct belong to the enclosing object, through every level of inlining
+                    for g in t["f"]:
+                        if skipped(g):
+                            continue
+                        if ("inline" in g["opts"] or "squash" in g["opts"]) and g["t"]["k"] == "struct":
+                            flat(g["t"])
+                        elif "inline" in g["opts"] or "squash" in g["opts"]:
+                            continue
+                        elif rnd.random() < 0.7:
                             members.append((fname(g), stream_for(g["t"], rnd, extras, depth + 1, nulls)))
+                if f["t"]["k"] == "struct":
+                    flat(f["t"])
                 continue
             if rnd.random() < 0.75:
                 members.append((fname(f), stream_for(f["t"], rnd, extras, depth + 1, nulls)))
